@@ -594,7 +594,7 @@ func checkCmd(opts *RunOpts, args []string) int {
 	}
 	if run.WRan {
 		_, vl, cv := boundedListVerdict(opts, prop, known, "bounded.waiting.histories", "none.txt", run.WFailing, run.WTotal,
-			"every history of up to 3 single-state Add/Remove mutations over A and the Multi state B, one subscription of every kind (When, WhenNot, WhenTime, WhenTicks, state context) taken at every position, on a fresh machine and after SetSchema",
+			"every history of up to 3 single-state Add/Remove mutations over A and the Multi state B, one subscription of every kind (When, WhenNot, WhenTime, WhenTicks, state context; four WhenQuery of which three become true in the same transition; When / WhenNot / WhenTime / WhenQuery bound to a context canceled right after subscribing) taken at every position, on a fresh machine and after SetSchema",
 			"", "close a channel although its condition never held, keep one open although it did, or cancel / keep a state context against its state's tick", nil)
 		if vl != "" {
 			violations = append(violations, vl)
@@ -603,7 +603,7 @@ func checkCmd(opts *RunOpts, args []string) int {
 	}
 	if run.FRan {
 		_, vl, cv := boundedListVerdict(opts, prop, known, "bounded.faults.handler_positions", "none.txt", run.FFailing, run.FTotal,
-			"machine with B active, Set{A} (BExit, AEnter, AnyEnter, BEnd, AState, AnyState), two handler bindings, a panic (error / string) or a stall past HandlerTimeout injected once at every (handler, binding) of that mutation; for the global handlers also repeatedly (the fault recurs inside the Exception transition); panics under PanicToErr / PanicToErrState",
+			"machine with B active, Set{A} (BExit, AEnter, AnyEnter, BEnd, AState, AnyState), two handler bindings, a panic (error / string) or a stall past HandlerTimeout injected once at every (handler, binding) of that mutation; for the global handlers also repeatedly (the fault recurs inside the Exception transition); a stall past HandlerTimeout + HandlerDeadline + HandlerBackoff (abandoned handler returning late); panics under PanicToErr / PanicToErrState",
 			"", "break fault containment (call returns Canceled, Exception carries the panic message / the timeout is reported, negotiation faults change nothing, final faults roll back the unfinished handlers, tick parity holds, a probe mutation executes afterwards)", nil)
 		if vl != "" {
 			violations = append(violations, vl)
